@@ -94,7 +94,7 @@ func c05Snapshot(os []*c05Order) c05Snap {
 	return s
 }
 
-func c05Stats(tr *Trace, os []*c05Order, s c05Snap) {
+func c05Stats(tr *Trace, os []*c05Order, s c05Snap, book bool) {
 	buyRecv, sellPaid := sdkmath.ZeroInt(), sdkmath.ZeroInt()
 	nm, npart := 0, 0
 	for i, x := range os {
@@ -123,7 +123,7 @@ func c05Stats(tr *Trace, os []*c05Order, s c05Snap) {
 	if npart > 0 {
 		tr.Count("has-partial-fill")
 	}
-	if !buyRecv.Equal(sellPaid) {
+	if !buyRecv.Equal(sellPaid) && book {
 		tr.Count("base-not-conserved(stat)")
 	}
 }
@@ -149,7 +149,7 @@ func c05OpSingle(tr *Trace, os []*c05Order, p sdkmath.LegacyDec) {
 		outcome = "panic"
 	}
 	tr.Count("single:" + outcome)
-	c05Stats(tr, os, snap)
+	c05Stats(tr, os, snap, true)
 	tr.Line("amm.op", "single", c05Raw(p), fma, outcome, qcd, c05Results(os))
 }
 
@@ -172,7 +172,7 @@ func c05OpMatch(tr *Trace, os []*c05Order, lp sdkmath.LegacyDec) {
 		outcome = "panic"
 	}
 	tr.Count("match:" + outcome + ":dir" + dir)
-	c05Stats(tr, os, snap)
+	c05Stats(tr, os, snap, true)
 	tr.Line("amm.op", "match", c05Raw(lp), dir, outcome, mp, qcd, c05Results(os))
 }
 
@@ -190,7 +190,7 @@ func c05OpDist(tr *Trace, os []*c05Order, amt sdkmath.Int, p sdkmath.LegacyDec) 
 		outcome = "panic"
 	}
 	tr.Count("dist:" + outcome)
-	c05Stats(tr, os, snap)
+	c05Stats(tr, os, snap, false)
 	tr.Line("amm.op", "dist", amt.String(), c05Raw(p), outcome, qcd, c05Results(os))
 }
 
@@ -393,8 +393,16 @@ func (g *c05Gen) book(tr *Trace) []*c05Order {
 func (g *c05Gen) opPrice(os []*c05Order) sdkmath.LegacyDec {
 	r := g.rng
 	switch c := r.Intn(100); {
-	case c < 45 && len(os) > 0:
+	case c < 30 && len(os) > 0:
 		return os[r.Intn(len(os))].o.GetPrice()
+	case c < 55 && len(os) > 1:
+		// a tick between the prices of two orders (inside the spread when they are a crossing buy and sell)
+		a := amm.TickToIndex(os[r.Intn(len(os))].o.GetPrice(), g.prec)
+		b := amm.TickToIndex(os[r.Intn(len(os))].o.GetPrice(), g.prec)
+		if a > b {
+			a, b = b, a
+		}
+		return amm.TickFromIndex(a+r.Intn(b-a+1), g.prec)
 	case c < 90:
 		return g.tick(r.Intn(9) - 4)
 	default:
@@ -408,7 +416,20 @@ func (g *c05Gen) op(tr *Trace, os []*c05Order) {
 	case c < 45:
 		c05OpMatch(tr, os, g.opPrice(os))
 	case c < 80:
-		c05OpSingle(tr, os, g.opPrice(os))
+		p := g.opPrice(os)
+		if r.Chance(40) {
+			// the keeper's first batch of a pair: the price comes from the REAL FindMatchPrice (an external input of the model)
+			var mp sdkmath.LegacyDec
+			found := false
+			try(func() { mp, found = amm.FindMatchPrice(amm.NewOrderBook(c05Objs(os)...).MakeView(), g.prec) })
+			if found && mp.IsPositive() {
+				p = mp
+				tr.Count("single:price-from-FindMatchPrice")
+			} else {
+				tr.Count("single:FindMatchPrice-none")
+			}
+		}
+		c05OpSingle(tr, os, p)
 	case c < 92:
 		// DistributeOrderAmountToOrders directly on the orders of one side, at a common price
 		p := g.opPrice(os)
@@ -456,6 +477,109 @@ func (g *c05Gen) op(tr *Trace, os []*c05Order) {
 		}
 		c05OpFill(tr, os, idx, amt, p)
 	}
+}
+
+// a keeper-shaped book (keeper/swap.go Match with a last price): user orders around the last price plus the orders that the
+// REAL amm.PoolOrders generates for one or two real pools inside the price limits; returns the book and the last price
+func (g *c05Gen) poolBook(tr *Trace) ([]*c05Order, sdkmath.LegacyDec) {
+	r := g.rng
+	g.prec = 3 + r.Intn(2)
+	g.loIdx = amm.TickToIndex(c05Dec("0.00000000000001"), g.prec)
+	g.hiIdx = amm.TickToIndex(c05Dec("100000000000000000000"), g.prec)
+	lo := amm.TickToIndex(c05Dec("0.000001"), g.prec)
+	hi := amm.TickToIndex(c05Dec("1000000"), g.prec)
+	g.center = lo + r.Intn(hi-lo+1)
+	g.lastAmts = nil
+	lp := g.tick(0)
+	lowest, highest := liqtypes.PriceLimits(lp, sdkmath.LegacyNewDecWithPrec(1, 1), g.prec)
+	var os []*c05Order
+	npools := 1 + r.Intn(2)
+	for pi := 0; pi < npools; pi++ {
+		// pool price near the last price (within a few percent, sometimes outside the limits)
+		dev := int64(r.Intn(61) - 30) // per mille
+		if r.Chance(10) {
+			dev = int64(r.Intn(401) - 200)
+		}
+		pp := lp.Mul(sdkmath.LegacyNewDec(1000 + dev)).QuoInt64(1000)
+		ry := c05Pow10(3 + r.Intn(9)).MulRaw(int64(1 + r.Intn(9)))
+		rx := pp.MulInt(ry).TruncateInt()
+		if !rx.IsPositive() {
+			continue
+		}
+		var pool amm.Pool
+		if r.Chance(50) {
+			bp, err := amm.CreateBasicPool(rx, ry)
+			if err != nil {
+				tr.Count("pool:basic-rejected")
+				continue
+			}
+			pool = bp
+			tr.Count("pool:basic")
+		} else {
+			minP := amm.PriceToDownTick(pp.Mul(c05Dec("0.9")), g.prec)
+			maxP := amm.PriceToUpTick(pp.Mul(c05Dec("1.1")), g.prec)
+			rp, err := amm.CreateRangedPool(rx, ry, minP, maxP, pp)
+			if err != nil {
+				tr.Count("pool:ranged-rejected")
+				continue
+			}
+			pool = rp
+			tr.Count("pool:ranged")
+		}
+		orderer := liqtypes.NewPoolOrderer(pool, uint64(pi+1), nil, "base", "quote")
+		var pos []amm.Order
+		panicked, _ := try(func() { pos = amm.PoolOrders(pool, orderer, lowest, highest, g.prec) })
+		if panicked {
+			tr.Count("pool:orders-panic")
+			continue
+		}
+		if len(pos) > 60 { // keep the books readable: the first orders on each side are the ones that trade
+			var nb, ns int
+			var kept []amm.Order
+			for _, o := range pos {
+				if o.GetDirection() == amm.Buy && nb < 30 {
+					nb++
+					kept = append(kept, o)
+				} else if o.GetDirection() == amm.Sell && ns < 30 {
+					ns++
+					kept = append(kept, o)
+				}
+			}
+			pos = kept
+		}
+		for _, o := range pos {
+			os = append(os, &c05Order{id: len(os), kind: 1, oid: uint64(pi + 1), o: o})
+			tr.Count("order:pool-generated")
+		}
+	}
+	nu := 1 + r.Intn(8)
+	for i := 0; i < nu; i++ {
+		dir := amm.Buy
+		if r.Chance(50) {
+			dir = amm.Sell
+		}
+		delta := r.Intn(41) - 20
+		if (dir == amm.Buy) == r.Chance(70) {
+			if delta < 0 {
+				delta = -delta
+			}
+		}
+		price := g.tick(delta)
+		if price.LT(lowest) {
+			price = lowest
+		}
+		if price.GT(highest) {
+			price = highest
+		}
+		amt := g.amount(tr, price)
+		if amt.GT(c05Pow10(14)) {
+			amt = c05Pow10(3 + r.Intn(10))
+		}
+		offer := amm.OfferCoinAmount(dir, price, amt)
+		os = append(os, c05New(len(os), 0, uint64(1+r.Intn(40)), uint64(r.Intn(3)), dir, price, amt, offer))
+		tr.Count("order:user:with-pools")
+	}
+	return os, lp
 }
 
 // one-sided list for direct DistributeOrderAmountToOrders calls: same direction, same price, batch mix
@@ -511,9 +635,17 @@ func TestC05(t *testing.T) {
 	}
 
 	g := &c05Gen{rng: rng}
-	books := scale(6000, 250000)
+	books := scale(40000, 600000)
 	for b := 0; b < books; b++ {
 		var os []*c05Order
+		if rng.Chance(6) {
+			var lp sdkmath.LegacyDec
+			os, lp = g.poolBook(tr)
+			tr.Count("case:pool-book")
+			c05Begin(tr, os)
+			c05OpMatch(tr, os, lp)
+			continue
+		}
 		if rng.Chance(12) {
 			os = g.oneSided(tr)
 			tr.Count("case:one-sided")
